@@ -22,6 +22,8 @@ pub fn base_model() -> Model {
         ("fail", FnModel::Fail),
         ("id", FnModel::Identity),
         ("f", FnModel::Identity),
+        ("nest", FnModel::Nested),
+        ("cnt", FnModel::NeedsTuple),
     ] {
         m.funs.insert(n.to_string(), f);
     }
@@ -127,6 +129,17 @@ impl<'a> ProgGen<'a> {
     fn leaf(&mut self) -> Ast {
         self.k += 1;
         let k = self.k;
+        if self.r.chance(1, 30) {
+            // a variable read of a name that is only bound as a function; a re-entrant function; a function that
+            // rejects non-tuples with the library's own error
+            let k = self.k;
+            return match self.r.below(4) {
+                0 => Ast::Read((*self.r.pick(&["t", "id", "b", "fail"])).to_string()),
+                1 => call("nest", k),
+                2 => call("cnt", k),
+                _ => Ast::Call("cnt".into(), Box::new(Ast::Tuple(vec![call("t", k), Ast::Const(RV::Int(1))]))),
+            };
+        }
         let kind = match self.r.below(24) {
             0..=7 => 0,   // t
             8..=10 => 3,  // b
@@ -361,6 +374,12 @@ impl<'a> TypedGen<'a> {
                         self.bin(op, a, b)
                     },
                     4 => Ast::Un("!", Box::new(self.gen(T::Bool, d))),
+                    5 if self.r.chance(1, 2) => {
+                        // a variable compared with itself (NaN != NaN also when both sides are the same storage)
+                        let v = (*self.r.pick(&["xn", "xt", "xf", "x", "xe", "xs"])).to_string();
+                        let op = *self.r.pick(&["==", "!=", "<=", ">="]);
+                        Ast::Bin(op, Box::new(Ast::Read(v.clone())), Box::new(Ast::Read(v)))
+                    },
                     _ => {
                         let (a, b) = (self.gen(T::Any, d), self.gen(T::Any, d));
                         let op = if self.r.chance(1, 2) { "==" } else { "!=" };
@@ -412,6 +431,11 @@ impl<'a> TypedGen<'a> {
                         let op = *self.r.pick(&["&&=", "||="]);
                         Ast::Assign(op, "xb".into(), Box::new(self.gen_no_assign(T::Bool, d)))
                     },
+                    4 if self.r.chance(1, 3) => {
+                        // a compound assignment that fails leaves the variable as it was
+                        let (t, op) = *self.r.pick(&[("xs", "+="), ("xs", "*="), ("xt", "+="), ("xe", "-="), ("xs", "&&=")]);
+                        Ast::Assign(op, t.into(), Box::new(self.gen_no_assign(T::Int, d)))
+                    },
                     _ => Ast::Assign("=", "fresh".into(), Box::new(self.gen(T::Any, d))),
                 }
             },
@@ -439,6 +463,9 @@ pub fn typed_model() -> Model {
     m.vars.insert("xf".into(), RV::Float(1.5));
     m.vars.insert("xb".into(), RV::Bool(true));
     m.vars.insert("xs".into(), RV::Str("q".into()));
+    m.vars.insert("xn".into(), RV::Float(f64::NAN));
+    m.vars.insert("xt".into(), RV::Tuple(vec![RV::Float(f64::NAN), RV::Int(1)]));
+    m.vars.insert("xe".into(), RV::Tuple(vec![]));
     m
 }
 
